@@ -50,7 +50,8 @@ def gen_plan(rng, tier, run):
     n = rng.randint(1, 7)
     magc = rng.choice([None, None, "small", "mid", "typical", "max"])
     files = common.gen_store(rng, n, style="bmc", refpool=common.REFCODE_POOL if rng.random() < 0.8 else None,
-                             with_src=True if all_src else None, max_sections=3, id_magnitude=magc, dup_plid=0.35)
+                             with_src=True if all_src else None, max_sections=3, id_magnitude=magc, dup_plid=0.35,
+                             ud_targets=[("O", 0x2000)] if rng.random() < 0.5 else None)
     extra = common.gen_store(rng, 4, style="bmc", refpool=common.REFCODE_POOL, with_src=True if all_src else None,
                              max_sections=2, id_magnitude=magc, dup_plid=0)
     used = {f["recipe"]["eid"] for f in files}
@@ -62,6 +63,9 @@ def gen_plan(rng, tier, run):
             if i != j and ("%08X" % g["recipe"]["eid"]) in f["name"]:
                 f["name"] = "pel_%08X" % f["recipe"]["eid"]
     plan = {"files": files, "extra": extra, "all_src": all_src,
+            # the PEL directory's own name (glob metacharacters, blanks, an id) and the terminal's encoding
+            "dname": rng.choice(["D"] * 6 + ["pels[node0]", "run-1[a-z]", "logs*", "what?", "a b", "%08X" % pelgen.gen_id(rng)]),
+            "stdout_encoding": rng.choice(["utf-8", "utf-8", "utf-8", "ascii", "latin-1"]),
             # process model: every invocation in a fresh module set (= its own process) or all in one process
             "fresh": rng.random() < 0.4,
             "exclude": rng.sample(common.REFCODE_POOL, rng.randint(0, 5)) + ["B1234567"], "ops": []}
@@ -117,7 +121,11 @@ def gen_plan(rng, tier, run):
     return plan
 
 
-def argv_of(op):
+def argv_of(op, dname="D"):
+    return [("@/" + dname) if x == "@/D" else x for x in _argv_of(op)]
+
+
+def _argv_of(op):
     k = op["op"]
     a = ["-p", "@/D"]
     if k == "plid":
@@ -170,7 +178,10 @@ def execute(plan):
     with World() as w:
         w.fresh_per_run = bool(plan.get("fresh"))
         bump("process_model:fresh" if w.fresh_per_run else "process_model:shared")
-        common.put_store(w, "D", plan["files"])
+        dname = plan.get("dname", "D")
+        if dname != "D":
+            bump("dir_name_special")
+        common.put_store(w, dname, plan["files"])
         w.put("X/exclude.txt", "\n".join(plan["exclude"]).encode())
         for f in plan["files"]:
             datas[f["name"]] = common.file_data(f)
@@ -178,16 +189,16 @@ def execute(plan):
             k = op["op"]
             if k == "add":
                 datas[op["file"]["name"]] = common.file_data(op["file"])
-                w.put("D/" + op["file"]["name"], datas[op["file"]["name"]])
+                w.put(dname + "/" + op["file"]["name"], datas[op["file"]["name"]])
                 mutated = True
                 trace.append("add")
                 continue
             # the model: PEL files currently in the directory (facts by construction)
-            present = sorted(os.listdir(w.path("D")))
+            present = sorted(os.listdir(w.path(dname)))
             model = {n: pelgen.facts(recipe_of[n]) for n in present if n in recipe_of}
             others = [n for n in present if n not in recipe_of]
-            argv = argv_of(op)
-            r = w.run(argv, order=op["order"])
+            argv = argv_of(op, dname)
+            r = w.run(argv, order=op["order"], stdout_encoding=plan.get("stdout_encoding", "utf-8"))
             events += len(r.events)
             h.update(r.digest.encode())
             h.update(r.stdout.encode())
@@ -325,7 +336,7 @@ def execute(plan):
     nontrivial = first_mut is not None and first_mut < len(trace) - 1
     sample = {"store": {f["name"]: {"eid": "%08X" % f["recipe"]["eid"], "plid": "%08X" % f["recipe"]["plid"],
                                     "bmc": f["recipe"]["bmc_id"]} for f in plan["files"]},
-              "history": [argv_of(o) if o["op"] != "add" else ["<BMC adds>", o["file"]["name"]] for o in plan["ops"]],
+              "history": [argv_of(o, plan.get("dname", "D")) if o["op"] != "add" else ["<BMC adds>", o["file"]["name"]] for o in plan["ops"]],
               "trace": trace}
     return {"violations": uniq, "stats": stats, "traces": ["|".join(trace)] if nontrivial else [], "events": events,
             "evals": len(plan["ops"]), "digest": h.hexdigest(), "sample": sample}
